@@ -505,6 +505,54 @@ def _(c):
     c.ensure("every_pair_converts_and_agrees", ok)
 
 
+def _grid_lagr2(tier, rng):
+    """Lagrange point {1, 2, 4} of the Sun-Earth pair"""
+    for kind in (1, 2, 4):
+        yield {"kind": kind}
+
+
+_LAGR2_SCRIPT = """
+import json, sys
+import numpy as np
+from beyond.config import config
+from beyond.env import solarsystem as sol, jpl
+from beyond.frames.lagrange import lagrange
+from beyond.orbits import StateVector
+from beyond.dates import Date
+kind = int(sys.argv[1])
+A = lagrange(sol.get_frame("Sun"), sol.get_frame("Earth"), kind, name="C20LagA")
+sv = StateVector([7e6, 1e5, 2e5, 0.0, 7500.0, 0.0], Date(2019, 2, 3), "cartesian", "EME2000")
+before = np.asarray(sv.copy(frame=A), dtype=float)
+config.update({"env": {"jpl": {"files": ["/repo/tests/data/jpl/de403_2000-2020.bsp", "/repo/tests/data/jpl/pck00010.tpc", "/repo/tests/data/jpl/gm_de431.tpc"]}}})
+jpl.create_frames()
+mid = np.asarray(sv.copy(frame=A), dtype=float)
+lagrange(jpl.get_frame("Sun"), jpl.get_frame("Earth"), kind, name="C20LagB")
+after = np.asarray(sv.copy(frame=A), dtype=float)
+print("RESULT " + json.dumps({"mid": float(np.abs(mid - before).max()), "after": float(np.abs(after - before).max())}))
+"""
+
+
+@contract("C20", "register.second_frame_about_the_same_point", funcs=["beyond.frames.lagrange:lagrange", "beyond.frames.center:Center.add_link", "beyond.frames.center:Center.convert_to"],
+          grid=_grid_lagr2, level="bounded")
+def _(c):
+    """bounded: a frame about a Lagrange point of the Sun-Earth pair exists (built on the analytical Sun); the planetary kernel's frames are created and a SECOND frame about
+    the same point is registered under a new name, built on the kernel's Sun and Earth: conversions between EME2000 and the first frame give bit-identical results before
+    and after.  (Run in an interpreter of its own: creating the kernel's frames re-registers Sun, Earth and Moon for the rest of the process.)"""
+    import json
+    import os
+    import subprocess
+    import sys
+    env = dict(os.environ)
+    env["PYTHONPATH"] = os.environ.get("BEYOND_REPO", "/repo") + os.pathsep + env.get("PYTHONPATH", "")
+    out = subprocess.run([sys.executable, "-W", "ignore", "-c", _LAGR2_SCRIPT, str(c.integer("kind"))], capture_output=True, text=True, env=env, timeout=300)
+    line = [x for x in out.stdout.splitlines() if x.startswith("RESULT ")]
+    if not line:
+        raise RuntimeError("scenario did not run: " + out.stderr[-400:])
+    res = json.loads(line[0][7:])
+    c.ensure("unchanged_by_the_kernel_frames", res["mid"] == 0.0)
+    c.ensure("unchanged_by_the_second_frame", res["after"] == 0.0)
+
+
 FR = "beyond.frames.frames"
 
 
